@@ -162,3 +162,59 @@ def begin():
 
 def obj(key, make, warm=None):
     return T.get(key, make, warm)
+
+
+# ----------------------------------------------------------------------------- neighbouring calls (hardener hg1)
+def _is_seq_token(t):
+    return t != "_" and all(ch.isdigit() or ch == "," for ch in t) and "," in t
+
+
+def _is_cells_token(t):
+    return "." in t and all(ch.isdigit() or ch in ".," for ch in t)
+
+
+def _is_int_token(t):
+    return t.lstrip("-").isdigit() and len(t) <= 6
+
+
+def neighbours(a, limit=3):
+    """argument lists that differ from `a` in exactly one token: a sequence token reversed, a cell-list token
+    with its first cell dropped or cell 0.0 added, a small integer token increased by one.  They are evaluated
+    (results and exceptions discarded, objects dropped) before the line itself on the selected lines: state
+    keyed by id() of short-lived objects or by too coarse a key then answers the line from a neighbour"""
+    res = []
+    for i, t in enumerate(a):
+        if _is_seq_token(t):
+            nt = ",".join(reversed(t.split(",")))
+        elif _is_cells_token(t):
+            cs = t.split(",")
+            nt = ",".join(cs[1:]) if len(cs) > 1 else (t + ",0.0" if t != "0.0" else "0.1")
+        elif _is_int_token(t):
+            nt = str(int(t) + 1)
+        else:
+            continue
+        if nt != t:
+            res.append(list(a[:i]) + [nt] + list(a[i + 1:]))
+    if len(res) > limit:
+        step = len(res) / float(limit)
+        res = [res[int(j * step)] for j in range(limit)]
+    return res
+
+
+def prelude(op, a, evaluate, k=8, gc_every=64):
+    """on a deterministic 1-in-k selection of lines: evaluate the neighbouring calls first (each with its own
+    object table), drop everything (a full gc.collect() on 1 in gc_every of them)"""
+    d = digest("n~" + op, a)
+    if k > 1 and d % k:
+        return False
+    for nb in neighbours(a):
+        begin()
+        try:
+            evaluate(op, nb)
+        except Exception:  # pylint: disable=broad-except
+            pass
+    begin()
+    if (d // max(k, 1)) % gc_every == 0:
+        import gc
+        gc.collect()
+    return True
